@@ -1268,7 +1268,8 @@ func (c *FnCtx) mergeVals(vals []*Val, conds []string, hint string) *Val {
 		return v0
 	}
 	// small number of alternatives: ite chain; else fresh constant
-	if len(vals) == 2 && len(vals[0].T)+len(vals[1].T) < 200 {
+	namedSeq := c.con != nil && c.con.Flags["no-merge"] && isSeq(v0.S) // sequences get a name: at(name, i) is a usable trigger term
+	if len(vals) == 2 && len(vals[0].T)+len(vals[1].T) < 200 && !namedSeq {
 		return &Val{T: tIte(conds[0], vals[0].T, vals[1].T), S: v0.S, Typ: v0.Typ}
 	}
 	f := c.fresh("m_"+sanitizeSym(hint), v0.S)
